@@ -22,7 +22,6 @@ from beartype.door._func.doorfunc import (
     die_if_unbearable,
     is_bearable,
 )
-from beartype.roar import BeartypeDoorIsSubhintException
 from beartype.typing import (
     Any,
     FrozenSet,
@@ -918,17 +917,6 @@ class TypeHint(Generic[T_Hint], metaclass=_TypeHintMetaclass):
         branch : TypeHint
             Conditional branch of another type hint to be tested against.
 
-        Raises
-        ------
-        BeartypeDoorIsSubhintException
-            If this type hint and the passed branch are **incommensurable**
-            (i.e., incomparable with respect to the subhint relation). This rare
-            edge case typically arises due to an unexpected internal issue
-            (i.e., bug) within the :mod:beartype.door` API. Computing the
-            subhint relation between any two type hints is a surprisingly
-            non-trivial decision problem. Unsurprisingly, doing so mostly
-            rarely blows up with this exception.
-
         See Also
         --------
         :meth:`__le__`
@@ -965,25 +953,21 @@ class TypeHint(Generic[T_Hint], metaclass=_TypeHintMetaclass):
         # a subhint of that branch. Further tests are warranted.
 
         # If these two hints are subscripted by a differing number of child
-        # hints, raise an exception. Why? Because this rare edge case almost
-        # certainly signifies a low-level issue internal to this "beartype.door"
-        # subpackage. Silently "accepting" this issue by instead returning a
-        # boolean would constitute a false negative or positive. Moreover, the
-        # zip() builtin called below silently ignores the trailing portion of
-        # the longest iterable exceeding the length of the smallest iterable.
-        # Silently permitting that would invite issues throughout this API.
+        # hints, these two hints are incommensurable (e.g., "dict[str, int]"
+        # and "collections.abc.Collection[str]"): the child hints of the former
+        # do *NOT* positionally correspond to those of the latter. Since this
+        # hint *CANNOT* be safely decided to be a subhint of that branch,
+        # return false. Raising an exception here instead would render this
+        # relation irreflexive for unions of such hints: e.g.,
+        #     >>> hint = Union[Collection[str], dict[str, int]]
+        #     >>> is_subhint(hint, hint)
+        #     True
+        #
+        # Note that the zip() builtin called below silently ignores the trailing
+        # portion of the longest iterable exceeding the length of the smallest
+        # iterable. Silently permitting that would invite issues.
         if len(self._args_wrapped_tuple) != len(branch._args_wrapped_tuple):
-            # Number of child hints subscripting these two hints.
-            self_args_len = len(self._args_wrapped_tuple)
-            branch_args_len = len(branch._args_wrapped_tuple)
-
-            # Raise an exception embedding these numbers.
-            raise BeartypeDoorIsSubhintException(
-                f'{self} <= {branch} undecidable, as '
-                f'{self._hint} and {branch._hint} subscripted by '
-                f'differing number of child type hints '
-                f'(i.e., {self_args_len} != {branch_args_len}).'
-            )
+            return False
         # Else, these two hints are subscripted by the same number of child
         # hints.
 
